@@ -272,6 +272,97 @@ func init() {
 		w.ex.Thread("K", func() { w.n.Kill(w.pids["W1"]) })
 		w.Check = func() { c19check(w, pb, sent, true, -1) }
 	})
+	// a worker killed while it is busy in a callback is dead for the dispatcher: it is replaced on the spot
+	for _, size := range []int64{1, 2} {
+		size := size
+		c19Scenario(fmt.Sprintf("size%d-busy-worker-killed", size), 1, 2, func(w *World) {
+			g := &vsched.Gate{}
+			pb, pool, _ := w.spawnPool(poolCfg{size: size, gates: map[int]*vsched.Gate{1: g}})
+			w.Setup("park", func() { w.n.Send(pool, "park") })
+			w.Setup("kill-busy-w1", func() { w.n.Kill(w.pids["W1"]) })
+			var sent []c19sent
+			c19client(w, "C1", pool, &sent, false, "m1", "m2", "m3")
+			w.ex.Thread("G1", func() { w.n.Send(w.pids["C1"], "go") })
+			w.ex.ThreadLow("G", func() { g.Open() })
+			w.Check = func() {
+				g.Open()
+				c19check(w, pb, sent, false, int(size))
+			}
+		})
+	}
+	// a grown pool: every worker of the ring is tried before a message is dropped. Sequential histories
+	// over pool size x added workers x which workers are stuck in a callback x mailbox size.
+	harn.Register(harn.Scenario{Property: "C19", Name: "grown-pool-full-workers", Run: func(c *harn.Ctx) *harn.Result {
+		r := harn.NewResult("enum")
+		for _, size := range []int64{1, 2, 3} {
+			for _, add := range []int{0, 1, 2} {
+				total := int(size) + add
+				for stuck := 0; stuck < 1<<total-1; stuck++ { // at least one worker is free
+					for _, mbox := range []int64{1, 2} {
+						size, add, stuck, mbox := size, add, stuck, mbox
+						r.Executions++
+						fails, out := vsched.RunOnce(20, nodeBody(func(w *World) {
+							gates := map[int]*vsched.Gate{}
+							for k := 0; k < total; k++ {
+								if stuck&(1<<k) != 0 {
+									gates[k+1] = &vsched.Gate{}
+								}
+							}
+							var cmdErr error
+							pb, pool, _ := w.spawnPool(poolCfg{size: size, mbox: mbox, gates: gates, onPoolMsg: func(p *poolB, from gen.PID, m any) error {
+								if m == "add" {
+									_, cmdErr = p.AddWorkers(add)
+								}
+								return nil
+							}})
+							if add > 0 {
+								w.Setup("add", func() { w.n.SendWithPriority(pool, "add", gen.MessagePriorityHigh) })
+								if cmdErr != nil {
+									w.ex.Fail("resize-result", "AddWorkers(%d): %v", add, cmdErr)
+								}
+							}
+							// one "park" per worker, in ring order: the stuck ones stay in their callback
+							for k := 0; k < total; k++ {
+								w.nsetup++
+								w.Setup(fmt.Sprintf("park%d", w.nsetup), func() { w.n.Send(pool, "park") })
+							}
+							var sent []c19sent
+							w.spawnProbe("C1", probeCfg{}, gen.ProcessOptions{})
+							for i := 0; i < 3*total+2; i++ {
+								pl := fmt.Sprintf("f%d", i)
+								w.Do("C1", func(p *probe) error {
+									sent = append(sent, c19sent{pl, "C1", p.Send(pool, pl), nil, false})
+									return nil
+								})
+							}
+							var insp map[string]string
+							w.spawnProbe("I", probeCfg{onMsg: func(p *probe, from gen.PID, m any) error {
+								insp, _ = p.Inspect(pool)
+								return nil
+							}}, gen.ProcessOptions{})
+							w.Setup("inspect", func() { w.n.Send(w.pids["I"], "go") })
+							w.Check = func() {
+								for _, g := range gates {
+									g.Open()
+								}
+								w.Setup("drain", func() {})
+								if insp["messages_unhandled"] != "0" {
+									w.ex.Fail("dropped-with-free-worker", "pool of %d+%d workers, stuck mask %b, mailbox %d: the pool dropped %s message(s) although a worker is idle with an empty mailbox", size, add, stuck, mbox, insp["messages_unhandled"])
+								}
+								c19check(w, pb, sent, false, -1)
+							}
+						}))
+						for _, f := range fails {
+							r.Fail(f.Kind, "size %d + %d added, stuck mask %b, mailbox %d: %s", size, add, stuck, mbox, f.Detail)
+						}
+						r.Outcomes[out]++
+					}
+				}
+			}
+		}
+		r.States, r.Transitions, r.Distinct = r.Executions, r.Executions, len(r.Outcomes)
+		return r
+	}})
 	// AddWorkers / RemoveWorkers issued by the pool itself (high-priority command) during traffic
 	for _, cmd := range []string{"add", "remove"} {
 		cmd := cmd
